@@ -28,6 +28,8 @@
 #include <amgcl/relaxation/ilut.hpp>
 #endif
 #include <amgcl/relaxation/as_preconditioner.hpp>
+#include <amgcl/value_type/complex.hpp>
+#include <complex>
 
 using vq::Q; using vq::Tok; using vq::show;
 namespace rx = amgcl::relaxation;
@@ -149,6 +151,19 @@ VQ_OP(jacobi_dia) { auto A = t.crs(); rx::damped_jacobi<B> S(*A, rx::damped_jaco
 VQ_OP(gersh) {
     bool scale = (t.i() != 0); auto A = t.crs();
     return show(scale ? amgcl::backend::spectral_radius<true>(*A, 0) : amgcl::backend::spectral_radius<false>(*A, 0));
+}
+
+// complex value type (DESIGN section 8 item 9): spai0_cplx <n> (k (col re im)*k)*n -> M as [re im re im ...]
+// (std::complex<double>, small Gaussian-integer entries; the division by den is rounded)
+VQ_OP(spai0_cplx) {
+    typedef std::complex<double> C; typedef amgcl::backend::builtin<C> BC;
+    long n = t.i();
+    std::vector<ptrdiff_t> ptr(1, 0), col; std::vector<C> val;
+    for (long i = 0; i < n; ++i) { long k = t.i(); for (long e = 0; e < k; ++e) { col.push_back(t.i()); double re = t.d(), im = t.d(); val.push_back(C(re, im)); } ptr.push_back(col.size()); }
+    amgcl::backend::crs<C, ptrdiff_t, ptrdiff_t> A(n, n, ptr, col, val);
+    rx::spai0<BC> S(A, rx::spai0<BC>::params(), BC::params());
+    std::vector<double> out; for (long i = 0; i < n; ++i) { out.push_back((*S.M)[i].real()); out.push_back((*S.M)[i].imag()); }
+    return show(out);
 }
 
 int main() { return vq::driver_main(); }
